@@ -638,8 +638,9 @@ pub struct ProgramInfo<'a> {
     pub type_sizes: &'a TypeSizeMap,
     /// Information about the circuits in the program.
     pub circuits_info: &'a CircuitsInfo,
-    /// Returns the given a const type returns a vector of cells value representing it.
-    pub const_data_values: &'a dyn Fn(&ConcreteTypeId) -> Vec<BigInt>,
+    /// Given a const type returns a vector of cells value representing it, `None` if the declared
+    /// const data does not describe a value.
+    pub const_data_values: &'a dyn Fn(&ConcreteTypeId) -> Option<Vec<BigInt>>,
 }
 
 /// Given a Sierra invocation statement and concrete libfunc, creates a compiled CASM representation
